@@ -13,6 +13,8 @@
 EXTENDS Encoding, Encoding_Tables, Json
 Decls == {None} \cup T_Spellings
 Paths == {"bytes", "file", "moddir", "reload"}
+Entries(p, diag) == IF p = "bytes" THEN (IF diag THEN {"direct", "put_string"} ELSE {"direct", "put_string", "put_template"})
+                    ELSE (IF diag THEN {"direct"} ELSE {"direct", "lookup", "put_template"})
 NoCells == {}
 InitList == InitRest /\ \E i \in 1..Len(T_Cells) : cell = T_Cells[i]
 \* the grids are enumerated as initial states (not built as sets)
@@ -20,18 +22,19 @@ InitInP(diag) ==
           /\ InitRest
           /\ \E x \in T_True, b \in BOOLEAN, cm \in Decls, ie \in Decls, p \in Paths :
                \E c1 \in T_Rep[x] : \E c2 \in (IF diag THEN {c1, "A"} ELSE T_Rep[x]) :
+               \E en \in Entries(p, diag) :
                \E o \in (IF p \in {"moddir", "reload"} THEN (IF diag THEN {"none", "future1"} ELSE {"none", "future1", "modblock"}) ELSE {"none"}) :
                  cell = [id |-> 0, form |-> "bytes", x |-> x, bom |-> b, cm |-> cm, ie |-> ie, c |-> <<c1, c2>>,
-                         path |-> p, oe |-> None, errs |-> "strict", opt |-> o, bj |-> None, bp |-> None]
+                         path |-> p, oe |-> None, errs |-> "strict", opt |-> o, bj |-> None, bp |-> None, ent |-> en]
 InitOutP(diag) ==
            /\ InitRest
            /\ \E c1 \in (IF diag THEN {"A"} ELSE T_Base), oe \in {None} \cup T_Out, e \in T_Errs :
                 \/ \E c2 \in T_GridSyms :
                      cell = [id |-> 0, form |-> "str", x |-> "utf_8", bom |-> FALSE, cm |-> None, ie |-> None,
-                             c |-> <<c1, c2>>, path |-> "bytes", oe |-> oe, errs |-> e, opt |-> "none", bj |-> None, bp |-> None]
+                             c |-> <<c1, c2>>, path |-> "bytes", oe |-> oe, errs |-> e, opt |-> "none", bj |-> None, bp |-> None, ent |-> "direct"]
                 \/ \E c2 \in T_Base, p \in (IF diag THEN {"moddir"} ELSE Paths) :
                      cell = [id |-> 0, form |-> "bytes", x |-> "utf_8", bom |-> FALSE, cm |-> None, ie |-> None,
-                             c |-> <<c1, c2>>, path |-> p, oe |-> oe, errs |-> e, opt |-> "none", bj |-> None, bp |-> None]
+                             c |-> <<c1, c2>>, path |-> p, oe |-> oe, errs |-> e, opt |-> "none", bj |-> None, bp |-> None, ent |-> "direct"]
 \* possibly undecodable input: every byte string x position x true codec x BOM x declaration x path
 InitBadP(diag) ==
            /\ InitRest
@@ -42,7 +45,7 @@ InitBadP(diag) ==
                  /\ T_JunkCodec[j] \in {"any", x}          \* a character (not a raw byte string) comes in the cell's codec
                  /\ ((T_JunkHex[j] = "hefbbbf" /\ pos = "start") => b)   \* U+FEFF first, without a mark before it, IS the mark
                  /\ cell = [id |-> 0, form |-> "bytes", x |-> x, bom |-> b, cm |-> cm, ie |-> ie, c |-> <<c1, "A">>,
-                            path |-> p, oe |-> None, errs |-> "strict", opt |-> "none", bj |-> j, bp |-> pos]
+                            path |-> p, oe |-> None, errs |-> "strict", opt |-> "none", bj |-> j, bp |-> pos, ent |-> "direct"]
 Report == /\ Finished /\ Emit /\ PrintT(ToJson(Observation)) /\ pc' = "reported"
           /\ UNCHANGED <<cell, enc, res, text, content, modfile, loaded, src, uni, out>>
 MCNext == Next \/ Report
